@@ -931,7 +931,7 @@ fn c08_cell(sim: &Sim, op: &Op) {
 pub fn op_target(op: &Op) -> Option<Id> {
     match op {
         Op::Remove(i) | Op::Disable(i) | Op::Enable(i) | Op::Update(i) | Op::Ping(i) | Op::ClonePing(i) | Op::DropPing(i) | Op::Send(i) | Op::CloneSender(i) | Op::DropSender(i) | Op::PeerClose(i) | Op::FillOut(i) | Op::TakeSource(i) | Op::DropDispatcher(i) | Op::Wake(i) | Op::StreamPush(i) | Op::StreamEnd(i) | Op::TrRemove(i) | Op::TrMap(i) | Op::AdapterIntoInner(i) | Op::AdapterDrop(i) => Some(*i),
-        Op::PeerWrite(i, _) | Op::PeerRead(i, _) | Op::OwnRead(i, _) | Op::TimerSet(i, _) | Op::PingChild(i, _) | Op::DropChildPing(i, _) | Op::TrReplace(i, _) | Op::TrChildRet(i, _) => Some(*i),
+        Op::PeerWrite(i, _) | Op::PeerRead(i, _) | Op::OwnRead(i, _) | Op::TimerSet(i, _) | Op::PingChild(i, _) | Op::ArmChildTimer(i, _, _) | Op::DropChildPing(i, _) | Op::TrReplace(i, _) | Op::TrChildRet(i, _) => Some(*i),
         Op::GenericSet(i, _, _) | Op::PeerWriteChild(i, _, _) => Some(*i),
         Op::Schedule { exec, .. } => Some(*exec),
         Op::FailNext { id, .. } => Some(*id),
